@@ -28,6 +28,7 @@ def run(ctx: Ctx, chk) -> None:
     chk.run_rule(resync1, ctx)
     chk.run_rule(close_graceful, ctx)
     chk.run_rule(init_attrs, ctx)
+    chk.run_rule(guard_stable, ctx)
 
 
 def init_attrs(ctx: Ctx, chk) -> None:
@@ -661,3 +662,69 @@ def resync1(ctx: Ctx, chk, rule: str = "RESYNC-1") -> None:
         chk.ok(rule, f"{read.fq}::no LimitOverrunError handler", "no handler for LimitOverrunError in read()", read.where, sample=False)
     else:
         chk.ok(rule, f"{read.fq}::handlers", f"{n} handler(s) examined", read.where, sample=False)
+
+
+def guard_stable(ctx: Ctx, chk) -> None:
+    rule = "GUARD-STABLE"
+    chk.rule(rule, "a stream operation that tests `self.reader` / `self.writer` for None once and dereferences the attribute again after it was suspended at an await (the skip loop of read: the second `self.reader.readuntil`, the `readexactly` in the over-long handler) relies on the attribute not being reset while it is suspended: no method other than a constructor stores None into (or deletes) such an attribute - otherwise a read that races a disconnect fails with AttributeError on None instead of a transport error")
+    st = ctx.cls(ST)
+    classes = [st] + [c for c in ctx.prog.subclasses(st)]
+    n_deref = 0
+    for attr in ("reader", "writer"):
+        # dereferences of self.<attr> that can run after an await of the same call
+        late = []
+        for name in ("read", "write", "disconnect"):
+            f = st.find_method(name)
+            if f is None:
+                raise AnalysisError(f"anchor vanished: StreamTransport.{name}")
+            nodes = list(ctx.own_nodes(f))
+            awaits = [n for n in nodes if isinstance(n, ast.Await)]
+            loops = [n for n in nodes if isinstance(n, (ast.While, ast.For, ast.AsyncFor))]
+            derefs = [n for n in nodes if isinstance(n, ast.Attribute) and isinstance(n.ctx, ast.Load) and norm(n.value) == f"self.{attr}"]
+            for d in derefs:
+                dpos = (d.lineno, d.col_offset)
+                after = any((w.end_lineno, w.end_col_offset) <= dpos for w in awaits)
+                in_loop = any(any(x is d for x in ast.walk(lp)) and any(isinstance(x, ast.Await) for x in ast.walk(lp)) for lp in loops)
+                if after or in_loop:
+                    late.append((f, d))
+        n_deref += len(late)
+        if not late:
+            continue
+        stores = []
+        for c in classes:
+            for mname, lst in c.methods.items():
+                if mname in ("__init__", "__new__", "__post_init__"):
+                    continue
+                for f in lst:
+                    for x in ctx.own_nodes(f):
+                        if isinstance(x, ast.Delete):
+                            stores += [(f, x) for t in x.targets if norm(t) == f"self.{attr}"]
+                            continue
+                        if isinstance(x, ast.Call) and isinstance(x.func, ast.Name) and x.func.id in ("setattr", "delattr") and len(x.args) >= 2 and norm(x.args[0]) == "self" and isinstance(x.args[1], ast.Constant) and x.args[1].value == attr and (x.func.id == "delattr" or (len(x.args) == 3 and isinstance(x.args[2], ast.Constant) and x.args[2].value is None)):
+                            stores.append((f, x))
+                            continue
+                        if not isinstance(x, (ast.Assign, ast.AnnAssign)) or (isinstance(x, ast.AnnAssign) and x.value is None):
+                            continue
+                        for tg in x.targets if isinstance(x, ast.Assign) else [x.target]:
+                            vl = x.value
+                            pairs = list(zip(tg.elts, vl.elts)) if isinstance(tg, ast.Tuple) and isinstance(vl, ast.Tuple) and len(tg.elts) == len(vl.elts) else [(tg, vl)]
+                            for a_, b_ in pairs:
+                                for t_ in ast.walk(a_) if isinstance(a_, (ast.Tuple, ast.List)) else [a_]:
+                                    if norm(t_) != f"self.{attr}":
+                                        continue
+                                    if isinstance(b_, ast.Constant) and b_.value is None:
+                                        stores.append((f, x))
+                                    elif isinstance(a_, (ast.Tuple, ast.List)):
+                                        ty = str(ctx.prog.type_of(f.module, b_) or "")
+                                        if ty and "None" not in ty and "Any" not in ty:
+                                            continue  # unpacks a value whose static type has no None component
+                                        raise AnalysisError(f"GUARD-STABLE: `{norm(x)[:80]}` stores into self.{attr} through an unpacking the rule does not resolve")
+        f0, d0 = late[0]
+        chk.instance(rule)
+        key = f"{st.fq}::self.{attr}::stable-while-suspended"
+        if stores:
+            for f, x in stores:
+                chk.refute(rule, f"{f.fq}::self.{attr} = None", f"`{norm(x)[:90]}` resets self.{attr} while {short(f0.fq)} may be suspended at an await and dereferences `{norm(d0)}` again when it resumes ({ctx.loc(f0, d0)}): AttributeError on None instead of a transport error", ctx.loc(f, x))
+        else:
+            chk.ok(rule, key, f"{len(late)} dereference(s) of self.{attr} can follow an await of the same call (first: {ctx.loc(f0, d0)}); no method outside the constructors stores None into self.{attr}", ctx.loc(f0, d0))
+    chk.floor(rule, "dereferences of a stream attribute after an await of the same call", n_deref, 1)
